@@ -178,6 +178,15 @@ def build_graph_pages(case):
             elif w == "nested":
                 inner = n.Directive((bi + 2,), [t], "", "note", [], {})
                 body.append(n.Directive((bi + 2,), [n.ListNode((bi + 2,), [n.ListNodeItem((bi + 2,), [inner])], n.ListEnumType.unordered, None)], "", "container", [], {}))
+            elif w == "deflist":
+                # the body of a definition (a toctree indented under a line of text)
+                body.append(n.DefinitionList((bi + 2,), [n.DefinitionListItem((bi + 2,), [n.Paragraph((bi + 2,), [pp.text("d")]), t], [pp.text("term")])]))
+            elif w == "footnote":
+                body.append(n.Footnote((bi + 2,), [n.Paragraph((bi + 2,), [pp.text("f")]), t], f"id{bi + 1}", None))
+            elif w == "field":
+                body.append(n.FieldList((bi + 2,), [n.Field((bi + 2,), [t], "name", None)]))
+            elif w == "blocksub":
+                body.append(n.BlockSubstitutionReference((bi + 2,), [t], "sub"))
             elif w in ("include", "include2"):
                 stem = ref_slug_of(fid).replace("/", "_")
                 inc = f"includes/{stem}-{bi}.rst"
@@ -278,7 +287,8 @@ def nodes_preorder(root):
 NAMES = ["a", "b", "c", "d/index", "d/e", "f.g", "d/e/h", "x-1", "guide"]
 HEADS = ["Alpha", "Beta", "Gamma", "Delta", None, None, "Index page", ""]
 TITLES = [None, None, None, "Explicit", "Overview", "", "T2"]
-WRAPS = ["plain", "plain", "plain", "directive", "nested", "include", "include2"]
+# where a toctree directive may sit: every node that holds block content
+WRAPS = ["plain", "plain", "plain", "directive", "nested", "include", "include2", "deflist", "footnote", "field", "blocksub"]
 
 
 def entry_forms(rng, slug):
